@@ -10,6 +10,7 @@ use serde_json::{json, Value};
 mod afftree;
 mod arena;
 mod history;
+mod linalg;
 mod schema;
 mod regions;
 mod tj;
@@ -37,6 +38,7 @@ fn run_script(sc: &Value, id: usize, out: Out) {
         "iter" => arena::run_iter(sc, id, out),
         "afftree" => if sc.get("mode").and_then(|m| m.as_str()) == Some("history") { history::run(sc, id, out) } else { afftree::run(sc, id, out) },
         "regions" => regions::run(sc, id, out),
+        "linalg" => linalg::run(sc, id, out),
         _ => out(json!({"fam": fam, "sc": id, "ev": "unknown_family"})),
     }
 }
